@@ -124,7 +124,7 @@ class Loop:
             t.done_ = True
             t.result_ = e.value
             req = None
-        except Exception as e:
+        except (Exception, CancelledError) as e:      # a cancelled task ends with CancelledError like in asyncio
             t.done_ = True
             t.exc = e
             req = None
